@@ -23,6 +23,16 @@ S = {
  "C21-b": ("C21", "solver.process_new_state: save/reset/restore of self.solutions around the nested unsat check removed", "activate_unsat_support=True, satisfiable existential quantifiers, more than one instantiation per step: trees satisfying only the existential under test leak into the solutions"),
  "C22-a": ("C22", "z3_helpers.z3_solve: retry shuffling and smt.random_seed drawn from an unseeded private random.Random()", "at least one Z3 unknown inside z3_solve and an SMT part with several models"),
  "C22-b": ("C22", "language.StructuralPredicate: hand-written __hash__ removed, dataclass hash includes the function object (address)", "constraint with a structural predicate, a cost tie in the queue, two separate processes with different heap layout"),
+ "C01-c": ("C01", "isla_predicates.count: per-leaf reachability query replaced by a precomputed set whose worklist starts with seen={needle}, so a recursive needle never 'reaches itself'", "count(tree, <N>, n) with a *recursive* needle nonterminal on a tree that is still open; the free completion must pick a recursive alternative (only some solve() calls of a sequence are wrong)"),
+ "C02-c": ("C02", "solver.solve_quantifier_free_formula: extracted check_timeout() also called inside the SMT instantiation loop, i.e. after the state was popped from the queue", "timeout configured; the budget runs out between two Z3 queries of one SMT enumeration (slow query / clock step) while the popped state was the only queue element; then another solve(): TimeoutError once, StopIteration afterwards"),
+ "C12-c": ("C12", "mutator.generalize_subtree: class-level cache of path_to_tree results keyed by the nonterminal path only", "two Mutators (or two solvers' mutate()) for different grammars sharing a recursive nonterminal cycle, used one after the other in one process"),
+ "C14-c": ("C14", "isla_predicates.count: leaf-closing loop moved into a helper that restarts from the original tree in every iteration (only the last open leaf is closed)", "count completion of a candidate with >= 2 open leaves from which the needle is reachable (two optional lists)"),
+ "C16-c": ("C16", "trie.path_elem_to_trie_key: variable-length escape with an off-by-one in the digit count: child index 54 (756, 19710) gets the key of index 27", "a node with >= 55 children"),
+ "C17-c": ("C17", "derivation_tree.__getstate__: pickled bytes cached on the node in `_state`; to_json's exclusion entry is name-mangled and never matches", "a node is pickled / deep-copied, and later to_json (or pickling of an ancestor) runs over that very object"),
+ "C18-c": ("C18", "solver.parse: cache of accepted inputs keyed by the string only, shared with copies made by copy_without_queue", "two solvers related by copy_without_queue(formula=...) and a string first accepted by one member, then checked / parsed by the other"),
+ "C19-c": ("C19", "cli.get_input_string: content without its final newline is tried first, the verbatim content only as fallback", "input passed as a file ending in a newline, a grammar that accepts the content with and without it, and a constraint that tells the two readings apart"),
+ "C21-c": ("C21", "solver.process_new_state: nested unsat check swaps the queue but no longer isolates self.solutions (independently written twin of C21-b)", "activate_unsat_support=True, existential tree quantifier, >= 2 complete trees produced by the nested check's last step (max_number_free_instantiations >= 2)"),
+ "C22-c": ("C22", "z3_helpers.z3_solve: retry shuffle and smt.random_seed drawn from a module-level random.Random() (OS entropy)", "at least one Z3 unknown inside z3_solve and an SMT part with several models"),
 }
 def main():
     det_path = os.path.join(V, "seeded", "detection.json")
